@@ -22,8 +22,8 @@ func init() {
 		LevelNote:    "trusted: the simulated transport's body/Content-Length emulation (NetReply), the oracle's byte comparison; locators always carry the true hash and size (a wrong locator is not a server fault)",
 		Technique:    "deterministic simulation: real Keep client read paths over a fault-injecting simulated transport with seeded response ordering; byte-exact oracle + bounded recovery after faults stop",
 		DesignRef:    "5.3"})
-	props = append(props, &Prop{ID: "C12", Harness: "keepclient", Level: "exploration",
-		QuickRuns: 20000, QuickChunk: 500, QuickWallS: 60, ThoroughRuns: 3000000, ThoroughChunk: 5000, ThoroughWallS: 600, MaxSteps: 100000,
+	props = append(props, &Prop{ID: "C12", Harness: "keepclient", Level: "exploration", Also: []string{"C12B"},
+		QuickRuns: 10000, QuickChunk: 500, QuickWallS: 30, ThoroughRuns: 3000000, ThoroughChunk: 5000, ThoroughWallS: 600, MaxSteps: 100000,
 		Rule:          "C12: per run 1-32 services with 27-character, short and odd-length UUIDs, some read-only, a block hash, 0-3 locator hints (+K@ 5-character cluster form, 27-character known/unknown gateway form, other hints, placed around a signature hint); a GET that misses everywhere (404 / 500 / connection error per request, with retries), the same GET against the service set plus/minus one service, and a PUT under refusals are driven over the simulated wire and the ARRIVAL ORDER of requests is the observed history.",
 		Real:          []string{"sdk/go/keepclient: getSortedRoots, NewRootSorter, getOrHead, putReplicas, service tables (LoadKeepServicesFromJSON)", "services/keep-balance balanceBlock/ComputeChangeSets (scenario C12B in the balance harness, run by this check as a second batch)"},
 		Stub:          []string{"Keep services that miss/refuse behind the simulated transport"},
